@@ -5,7 +5,7 @@
    Models: Aggregates.v (plain_aggregates, pointwise_aggregates as coded), Tentative.v,
    Coarsen.v (aggregation, smoothed_aggregation, ruge_stuben as coded). *)
 From Amgcl Require Import Scalar QcInst Vec Crs Kernels MatOps MatOps2 MatOps2Proofs Aggregates Tentative Coarsen CoarsenProofs.
-From Amgcl Require Import Qr QrMathRefl QrMathR TentativeQr TentativeQrProofs TentativeQrR TentativeQrOracle TentativeQrGuard EminProofs2 EminProofs3.
+From Amgcl Require Import Qr QrMathRefl QrMathR TentativeQr TentativeQrProofs TentativeQrR TentativeQrOracle TentativeQrGuard TentativeQrPolicies TentativeQrPipeline EminProofs2 EminProofs3.
 Local Open Scope S_scope.
 
 (* ---------------------------------------------------------------- 1. plain_aggregates (any S)
@@ -485,7 +485,44 @@ Theorem C04_nullspace_pipeline_exact (eps2 : S) (cols : nat) (A : crs S) (junk :
   (forall j1 j2, j1 < ncols P -> j2 < ncols P ->
      sumn (fun k => mget P k j1 * mget P k j2) (nrows P) = if Nat.eqb j1 j2 then s1 else s0).
 Proof. exact (nullspace_pipeline_exact S Sft Seqb Hadj Habs Hsqrt Hreal eps2 cols A junk count id st B q0). Qed.
+
+(* transfer_operators() of plain aggregation WITH a near-null space (TentativeQrPolicies.v; fx = the tree has the
+   repaired remove_small_aggregates, see below), block_size 1: R = P^T, P reproduces B and has orthonormal columns *)
+Theorem C04_aggregation_ns_exact (fx : bool) (eps2 : S) (cols : nat) (A : crs S) (junk : vec S) (B : mat (S:=S)) (q0 : vec S) P R Bc :
+  0 < cols ->
+  aggregation_transfer_ns fx eps2 1 cols A junk B q0 = (TrOk P R, Bc) ->
+  exists count id st,
+    pointwise_aggregates eps2 1 cols A junk = AggOk count id st /\
+    R = transpose P /\ nrows P = nrows A /\ ncols P = (cols * count)%nat /\
+    (forall k c, k < nrows A -> (0 <= zget id k)%Z -> c < cols ->
+       ns_apply S cols Bc (nth k (rows P) []) c = mentry B k c) /\
+    (forall j1 j2, j1 < ncols P -> j2 < ncols P ->
+       sumn (fun k => mget P k j1 * mget P k j2) (nrows P) = if Nat.eqb j1 j2 then s1 else s0).
+Proof. exact (aggregation_ns_exact S Sft Seqb Hadj Habs Hsqrt Hreal fx eps2 cols A junk B q0 P R Bc). Qed.
 End NullSpaceQR.
+
+(* smoothed_aggr_emin on top of the near-null-space P_tent: the dense formulas hold (rows of that P_tent are
+   strictly sorted; field with adjoint = id is all that is needed) *)
+Theorem C04_emin_ns_formulas (S : Scalar) (Sft : Sfield S) (Hadj : forall x : S, sadj x = x)
+        (fx : bool) nt (eps2 : S) (cols : nat) (A : crs S) (junk : vec S) (B : mat (S:=S)) (q0 : vec S) P R Bc :
+  emin_transfer_ns fx nt eps2 1 cols A junk B q0 = (TrOk P R, Bc) ->
+  exists count id st,
+    pointwise_aggregates eps2 1 cols A junk = AggOk count id st /\
+    (nt <= 16 -> wf A = true -> ncols A = nrows A -> emin_regular A st = true ->
+     let Pt := fst (tentative_prolongation_qr 1 cols count id B q0) in
+     forall i j, i < nrows A -> j < ncols Pt ->
+       mget P i j = emin_P_spec A st Pt i j /\ mget R j i = emin_R_spec A st Pt j i).
+Proof. exact (emin_ns_formulas S Sft Hadj fx nt eps2 cols A junk B q0 P R Bc). Qed.
+
+(* remove_small_aggregates can delete EVERY aggregate and then returns count = 0 without error::empty_level
+   (finding C03-empty-coarse-level-direct-solver-crash; repair: `if (!m) throw error::empty_level();`).
+   pointwise_aggregates_fx fx = the behaviour without (fx = false) / with (fx = true) the repaired line: the same
+   result whenever an aggregate survives, and with the repair a returned count is never 0 *)
+Theorem C04_remove_small_repaired (S : Scalar) (fx : bool) (eps2 : S) bs mina (A : crs S) junk count id st :
+  pointwise_aggregates_fx fx eps2 bs mina A junk = AggOk count id st ->
+  pointwise_aggregates eps2 bs mina A junk = AggOk count id st /\ (fx = true -> 0 < count).
+Proof. exact (pointwise_aggregates_fx_ok fx eps2 bs mina A junk count id st). Qed.
+Print Assumptions C04_remove_small_repaired.
 
 (* the guard itself (any S): with block_size 1, every aggregate pointwise_aggregates returns has at least
    max(1, min_aggregate) members, ids of aggregated rows are below count *)
